@@ -262,8 +262,13 @@ fn base_program(rng: &mut Rng) -> String {
         }
         7 => (*rng.pick(SABOTAGE)).to_string(),
         8 => {
-            let l = crate::props::c16::litmus();
-            l[rng.idx(l.len())].1.clone()
+            if rng.chance(1, 2) {
+                let l = crate::props::c16::litmus();
+                l[rng.idx(l.len())].1.clone()
+            } else {
+                let g = crate::props::c16::generated();
+                g[rng.idx(g.len())].1.clone()
+            }
         }
         _ => {
             // engine-internal calls under poisoned intrinsics
